@@ -632,10 +632,10 @@ impl IoUringSubmissionQueueEntry {
             ioprio: 0,
             fd: socket.0,
             __bindgen_anon_1: io_uring_sqe__bindgen_ty_1 {
-                addr2: sockaddr as u64,
+                addr2: addr_len as u64,
             },
             __bindgen_anon_2: io_uring_sqe__bindgen_ty_2 {
-                addr: addr_len as u64,
+                addr: sockaddr as u64,
             },
             len: 0,
             __bindgen_anon_3: io_uring_sqe__bindgen_ty_3 {
@@ -673,10 +673,10 @@ impl IoUringSubmissionQueueEntry {
             ioprio: 0,
             fd: socket.0,
             __bindgen_anon_1: io_uring_sqe__bindgen_ty_1 {
-                addr2: sockaddr as u64,
+                addr2: addr_len as u64,
             },
             __bindgen_anon_2: io_uring_sqe__bindgen_ty_2 {
-                addr: addr_len as u64,
+                addr: sockaddr as u64,
             },
             len: 0,
             __bindgen_anon_3: io_uring_sqe__bindgen_ty_3 {
